@@ -406,6 +406,26 @@ func (r *runner) replayPassSnacl() {
 					return
 				}
 				sk = k
+			case "Rekey":
+				// a new SecretKey (new salt) for the new passphrase takes over what the old one protected
+				var a pwArgs
+				json.Unmarshal(st.A, &a)
+				pw := []byte(a.Pw)
+				k, err := snacl.NewSecretKey(&pw, sk.Parameters.N, sk.Parameters.R, sk.Parameters.P)
+				r.n++
+				if err != nil {
+					r.mismatch(si, "call", "", "NewSecretKey failed", err.Error(), want)
+					return
+				}
+				old, err := sk.Decrypt(probe)
+				if err != nil || !bytes.Equal(old, probePt) {
+					r.mismatch(si, "rejects", "", "the running key does not open the probe before the passphrase change", fmt.Sprint(err), "ok")
+					return
+				}
+				sk = k
+				if probe, err = sk.Encrypt(old); err != nil {
+					r.mismatch(si, "call", "", "SecretKey.Encrypt failed", err.Error(), want)
+				}
 			case "SealProbe":
 				var a lenArgs
 				json.Unmarshal(st.A, &a)
@@ -522,8 +542,24 @@ func mgrEligible(tr *Trace) (pwArgs, bool) {
 		if tr.Steps[i].Op == "FlipBlob" {
 			return a, false
 		}
+		if tr.Steps[i].Op == "Rekey" {
+			var b pwArgs
+			json.Unmarshal(tr.Steps[i].A, &b)
+			if b.Pw == "" {
+				return a, false
+			}
+		}
 	}
 	return a, true
+}
+
+func hasRekey(tr *Trace) bool {
+	for i := range tr.Steps {
+		if tr.Steps[i].Op == "Rekey" {
+			return true
+		}
+	}
+	return false
 }
 
 // replayPassMgr maps the behaviour onto a real address manager whose public
@@ -535,13 +571,31 @@ func (r *runner) replayPassMgr(root string, a0 pwArgs) {
 	// a manager created from (passphrase, parameters) is reused by later
 	// behaviours with the same start: nothing here writes to its database, and
 	// a fresh Manager handle is opened from the file for every behaviour
-	env, err := envCache.get(root, a0)
+	var env *mgrEnv
+	var err error
+	curPw := a0.Pw
+	if hasRekey(r.tr) {
+		// the passphrase change writes to the database: a manager of its own
+		envCache.mu.Lock()
+		envCache.n++
+		id := envCache.n
+		envCache.mu.Unlock()
+		env, err = newMgrEnv(filepath.Join(root, fmt.Sprintf("rekey%d", id)), []byte(a0.Pw), []byte(a0.Pw),
+			&waddrmgr.ScryptOptions{N: a0.N, R: a0.R, P: a0.P})
+		if err == nil {
+			defer env.close()
+		}
+	} else {
+		env, err = envCache.get(root, a0)
+		if err == nil {
+			defer envCache.put(a0, env)
+		}
+	}
 	if err != nil {
 		r.n++
 		r.mismatch(0, "call", "", "waddrmgr.Create/Open failed", err.Error(), "ok")
 		return
 	}
-	defer envCache.put(a0, env)
 	if err := env.unlock([]byte(a0.Pw)); err != nil {
 		r.n++
 		r.mismatch(0, "passphrase", "rejected", "Unlock with the creation passphrase failed", err.Error(), "ok")
@@ -566,6 +620,26 @@ func (r *runner) replayPassMgr(root string, a0 pwArgs) {
 				probe = out
 			case "Zero":
 				env.mgr.Lock()
+			case "Rekey":
+				// both master keys move to the new passphrase (the manager is unlocked here: the
+				// model's context is the canonical one)
+				var a pwArgs
+				json.Unmarshal(st.A, &a)
+				opts := &waddrmgr.ScryptOptions{N: a0.N, R: a0.R, P: a0.P}
+				err := walletdb.Update(env.db, func(tx walletdb.ReadWriteTx) error {
+					ns := tx.ReadWriteBucket(nsKey)
+					if err := env.mgr.ChangePassphrase(ns, []byte(curPw), []byte(a.Pw), true, opts); err != nil {
+						return err
+					}
+					return env.mgr.ChangePassphrase(ns, []byte(curPw), []byte(a.Pw), false, opts)
+				})
+				r.n++
+				if err != nil {
+					r.mismatch(si, "call", "", fmt.Sprintf("ChangePassphrase(%q -> %q) failed on an unlocked manager", curPw, a.Pw), err.Error(), "ok")
+					return
+				}
+				curPw = a.Pw
+				env.pub = []byte(a.Pw)
 			case "DeriveKey", "Restart":
 				var a pwArgs
 				json.Unmarshal(st.A, &a)
@@ -915,7 +989,7 @@ func main() {
 			if !nontriv {
 				for i := range tr.Steps[:len(tr.Steps)-1] {
 					switch tr.Steps[i].Op {
-					case "Flip", "Truncate", "Extend", "Zero", "Restart", "Unmarshal", "DeriveKey", "FlipBlob":
+					case "Flip", "Truncate", "Extend", "Zero", "Restart", "Unmarshal", "DeriveKey", "FlipBlob", "Rekey":
 						nontriv = true
 					}
 				}
